@@ -30,9 +30,9 @@ def run(tier, seed):
                 r = {"fn": "assemble", "enz": espec, "vector": {"id": "vec", "seq": gen.rotate(c["vector"], rng.randrange(len(c["vector"])))},
                      "modules": list(mods), "id": "p", "name": "p", "twin": {"by": "swap", "pos": pos, "mod": {"id": "new", "seq": new}}}
                 recipes.append(r)
-    if not q:      # same-type replacements among real registry plasmids
+    if True:       # same-type replacements among real registry plasmids
         from . import registry_asm
-        rr = registry_asm.swap_recipes(rng, False)[:10]
+        rr = registry_asm.swap_recipes(rng, q)[:(3 if q else 24)]
         run.extra["registry_swaps"] = len(rr)
         recipes += rr
     ac.validate(run, "swaps", recipes)
